@@ -184,6 +184,8 @@ class LineSerial(StubSerial):
             d = None                    # wrong bit rate: nothing intelligible
         self.clock.ms += dt
         self.trace.append(('R', d or None, dt))
+        if len(self.trace) > C.TRACE_LIMIT:
+            raise C.Hang()
         return d or b''
 
     def write(self, data):
@@ -363,6 +365,8 @@ class ScriptSocket:
             d, dt = None, st['idle']
         st['clock'].ms += dt
         st['trace'].append(('R', d or None, dt))
+        if len(st['trace']) > C.TRACE_LIMIT:
+            raise C.Hang()
         if d:
             return d
         raise real_socket.timeout('timed out')
